@@ -318,3 +318,67 @@ Proof.
   split; [apply bytes_okb_spec; reflexivity|].
   vm_compute. repeat split; reflexivity.
 Qed.
+
+(* ==== round3 smalls begin ==== *)
+(* Round 3 (audit clauses a and c).  Lemmas: TcpOpt/Round3.v (compositions only, no new model). *)
+From EP Require Import TcpOpt.Round3.
+
+(* the property text read literally ("yields the same elements"): for an element list that fits,
+   iterating its encoding yields exactly the SAME elements iff no SACK element has a hole (an
+   absent optional block before a present one); for every accepted value o and every trace *)
+Theorem C13_same_elements_iff_canonical : forall els o tr fin,
+  Forall element_ok els -> required_len els <= 40 ->
+  try_from_elements els = Ret (Ok o) -> elements_iterate o = Ret (tr, fin) ->
+  fin = [] /\ (map fst tr = map Ok els <-> Forall canonical els).
+Proof. exact same_elements_iff_canonical. Qed.
+Print Assumptions C13_same_elements_iff_canonical.
+
+(* ... and the literal reading is REFUTED for a SACK element with a hole: the element list below is
+   in range, fits, is accepted, and is read back as a different list (the hole is compacted away:
+   the wire format, RFC 2018, has no way to express an absent block before a present one).
+   Documented behaviour of the crate (the real crate gives the same answer: case line
+   `els S:1-2,-,3-4,-` -> 20 bytes, read back as `S:1-2,3-4,-,-`; the differential run has all
+   eight Some/None masks on every run), not a defect of the decoder; a deviation from the
+   property's wording. *)
+Theorem C13_sack_hole_refuted :
+  exists els o tr, Forall element_ok els /\ required_len els <= 40 /\
+    try_from_elements els = Ret (Ok o) /\ elements_iterate o = Ret (tr, []) /\
+    map fst tr <> map Ok els /\
+    els = [SelectiveAcknowledgement (1, 2) (None, Some (3, 4), None)] /\
+    map fst tr = [Ok (SelectiveAcknowledgement (1, 2) (Some (3, 4), None, None))].
+Proof. exact sack_hole_refuted. Qed.
+Print Assumptions C13_sack_hole_refuted.
+
+(* acceptance in RFC vocabulary, for EVERY element list (no range hypothesis): the required size
+   the code computes is the length of the RFC encodings; the list is accepted exactly when that
+   length is at most 40 (with the value below: encodings, zero filled, length rounded up to a
+   multiple of 4) and rejected with exactly that length otherwise *)
+Theorem C13_accept_iff : forall els,
+  let n := len (wire_list (map to_opt els)) in
+  required_len els = n /\
+  (n <= 40 -> try_from_elements els =
+     Ret (Ok {| o_len := pad4 n; o_buf := wire_list (map to_opt els) ++ zeros (40 - n) |})) /\
+  (40 < n -> try_from_elements els = Ret (Err (NotEnoughSpace n))) /\
+  ((exists o, try_from_elements els = Ret (Ok o)) <-> n <= 40) /\
+  (forall r, try_from_elements els = Ret (Err (NotEnoughSpace r)) <-> 40 < n /\ r = n).
+Proof. exact accept_iff. Qed.
+Print Assumptions C13_accept_iff.
+
+(* non-vacuity: a list with a hole-free SACK element is read back unchanged; hypotheses of the
+   iff theorem on it; a rejected list with its RFC length (4 timestamps + NOP = 41) *)
+Example C13_ex_same_elements :
+  let els := [MaximumSegmentSize 1460; SelectiveAcknowledgement (1, 2) (Some (3, 4), None, None)] in
+  Forall element_ok els /\ required_len els = 22 /\ Forall canonical els /\
+  (exists o tr, try_from_elements els = Ret (Ok o) /\ elements_iterate o = Ret (tr, []) /\
+     map fst tr = map Ok els).
+Proof.
+  cbv zeta. split; [|split; [reflexivity|split]].
+  - repeat constructor; cbn; unfold block_ok, u32_ok, u16_ok; cbn; lia.
+  - repeat constructor.
+  - eexists. eexists. split; [vm_compute; reflexivity|]. split; vm_compute; reflexivity.
+Qed.
+Example C13_ex_accept_iff :
+  len (wire_list (map to_opt [Timestamp 1 2; Timestamp 3 4; Timestamp 5 6; Timestamp 7 8; Noop])) = 41
+  /\ len (wire_list (map to_opt ex_els)) = 38.
+Proof. split; vm_compute; reflexivity. Qed.
+(* ==== round3 smalls end ==== *)
